@@ -260,24 +260,29 @@ def run_c09(ctx, spec):
                         ok = ok and np.array_equal(s3.numpy_flat(), t.flatten(order="C")) \
                             and np.array_equal(s3.copy().numpy_flat(), t.flatten(order="C"))
                 AR = __import__("nasim.envs.action", fromlist=["ActionResult"]).ActionResult
+                NoOp_ = __import__("nasim.envs.action", fromlist=["NoOp"]).NoOp
                 for res_, flags_ in ((AR(False, connection_error=True), [0.0, 1.0, 0.0, 0.0]),
                                      (AR(False, permission_error=True), [0.0, 0.0, 1.0, 0.0]),
                                      (AR(False, undefined_error=True), [0.0, 0.0, 0.0, 1.0]),
                                      (AR(True), [1.0, 0.0, 0.0, 0.0])):
-                    o = s.get_observation(runner.env.action_space.get_action(0), res_, True)
-                    o2d = o.numpy().copy()
-                    fbuf = np.zeros((2,) + o2d.shape, order="F", dtype=o2d.dtype)
-                    fbuf[0] = o2d
-                    for arr in (o.numpy_flat(), o.numpy().copy(), np.asfortranarray(o2d), fbuf[0]):
-                        o2 = Observation.from_numpy(arr, t.shape)
-                        ok = ok and np.array_equal(o2.numpy(), o.tensor) and np.array_equal(o2.numpy_flat(), o.numpy_flat())
-                        r2, aux2 = o2.get_readable()
-                        ok = ok and [float(aux2[k_]) for k_ in ("Success", "Connection Error", "Permission Error",
-                                                                 "Undefined Error")] == flags_
-                    ok = ok and np.array_equal(o.numpy_flat(), o.tensor.flatten(order="C"))
-                    ok = ok and o.tensor.shape == (t.shape[0] + 1, t.shape[1])
-                    aux = [float(x) for x in o.tensor[-1]]
-                    ok = ok and aux[:4] == flags_ and not any(aux[4:])
+                    # an ordinary action and the no-op, fully and partially observable: the auxiliary row always
+                    # leads with the four flags of the result, in the documented order
+                    for act_, fo_ in ((runner.env.action_space.get_action(0), True), (NoOp_(), True),
+                                      (NoOp_(), False), (runner.env.action_space.get_action(0), False)):
+                        o = s.get_observation(act_, res_, fo_)
+                        o2d = o.numpy().copy()
+                        fbuf = np.zeros((2,) + o2d.shape, order="F", dtype=o2d.dtype)
+                        fbuf[0] = o2d
+                        for arr in (o.numpy_flat(), o.numpy().copy(), np.asfortranarray(o2d), fbuf[0]):
+                            o2 = Observation.from_numpy(arr, t.shape)
+                            ok = ok and np.array_equal(o2.numpy(), o.tensor) and np.array_equal(o2.numpy_flat(), o.numpy_flat())
+                            r2, aux2 = o2.get_readable()
+                            ok = ok and [float(aux2[k_]) for k_ in ("Success", "Connection Error", "Permission Error",
+                                                                     "Undefined Error")] == flags_
+                        ok = ok and np.array_equal(o.numpy_flat(), o.tensor.flatten(order="C"))
+                        ok = ok and o.tensor.shape == (t.shape[0] + 1, t.shape[1])
+                        aux = [float(x) for x in o.tensor[-1]]
+                        ok = ok and aux[:4] == flags_ and not any(aux[4:])
                 readable = s.get_readable()
                 rows = state_wire(t, lay)
                 for rd, row in zip(readable, rows):
@@ -450,6 +455,9 @@ def run_c10(ctx, spec):
                         else:
                             alts = [np.asarray(a, dtype=dt) for dt in (np.int32, np.uint8, np.uint16, np.uint32, np.int8)
                                     if int(np.max(a)) <= np.iinfo(dt).max] + [list(int(x) for x in a), tuple(int(x) for x in a)]
+                            ro_ = np.array(a)
+                            ro_.setflags(write=False)          # a read-only array is a member, too
+                            alts += [ro_, np.broadcast_to(np.array(a), (2, len(a)))[1]]
                         alts = [x for x in alts if isinstance(x, (list, tuple)) or (env.action_space.contains(x) and np.all(np.asarray(x) == np.asarray(a)))]
                         if alts:
                             a = rng.choice(alts)
@@ -815,7 +823,7 @@ def run_c12(ctx, spec):
         runs = {}
         try:
             for modes in itertools.product([0, 1], repeat=3):
-                runner = ImplRunner(scenario, sd, list(modes), arg_style=rng.choice(["plain", "tuple"]))
+                runner = ImplRunner(scenario, sd, list(modes), arg_style=rng.choice(["plain", "tuple", "numpy"]))
                 ops = [[0] if h[0] == "reset" else [1, [0, h[1]] if modes[1] else [1, h[2]], h[3]] for h in hist]
                 runs[modes] = (ops, [runner.run_op(op) for op in ops])
         except Inexact:
